@@ -148,20 +148,39 @@ Proof.
 Qed.
 
 (* ================= defaults ================= *)
-Definition C06_default_full : Prop := forall s cs snake f lit n cv m,
-  i_default f = Some lit -> coerced_default n s (i_type f) lit = Some cv ->
+Definition C06_default_full : Prop := forall s cs snake f lit n cv k,
+  i_default f = Some lit -> coerced_default n s (i_type f) lit = Some cv -> n < k ->
   exists b v, default_body (rhs_default (p_value (gen_field s cs snake f))) = Some b /\
-              eval m (env_of s cs snake) b = Ok v /\ dump v = Some (json_of_cvalue cv).
+              eval k (env_of s cs snake) b = Ok v /\ dump v = Some (json_of_cvalue cv).
 
-(* proved for literals in good_default: scalars of the type's own kind, enum values (keyword-named ones
-   included since fix a742038), null, and (nested) lists of those; at every fuel, by induction on the literal *)
-Theorem C06_default_roundtrip_partial : forall s cs snake f lit n cv m,
+(* proved for literals in good_default, by induction on the literal, at every fuel above the one the coercion
+   succeeds with: scalars of the type's own kind, enum values (keyword-named included), null, (nested) lists of
+   those, and — since fixes 9710ea3 / bef1df4 — object literals that spell out every field of their input type
+   (good_value: enums, lists, nested objects inside), alone or as items of (nested) list defaults.
+   schema_ok (no colliding field names, F18) is needed for the object shapes only. *)
+Theorem C06_default_roundtrip_partial : forall s cs snake, schema_ok snake s = true ->
+  forall f lit n cv k,
   i_default f = Some lit -> good_default s lit (i_type f) = true ->
-  coerced_default n s (i_type f) lit = Some cv ->
+  coerced_default n s (i_type f) lit = Some cv -> n < k ->
   exists b v, default_body (rhs_default (p_value (gen_field s cs snake f))) = Some b /\
-              eval m (env_of s cs snake) b = Ok v /\ dump v = Some (json_of_cvalue cv).
+              eval k (env_of s cs snake) b = Ok v /\ dump v = Some (json_of_cvalue cv).
 Proof. exact default_roundtrip. Qed.
 Print Assumptions C06_default_roundtrip_partial.
+
+(* what an object default means: model_validate applied to the literal read as a value (any literal) *)
+Theorem C06_object_default_denotes_literal : forall E ft lit m,
+  exists v, eval m E (const_value_node ft lit true true) = Ok v /\ json_of_pyval v = Some (json_of_cvalue lit).
+Proof. exact dict_expr_denotes. Qed.
+Print Assumptions C06_object_default_denotes_literal.
+
+(* model_validate on a literal (value mode) yields the coerced default *)
+Theorem C06_validate_roundtrip : forall s cs snake, schema_ok snake s = true ->
+  forall lit t nb n cv k, n <= k -> good_value s lit t = true -> (nb = false -> lit <> CNull) ->
+  coerced_default n s t lit = Some cv ->
+  exists v, validate k (env_of s cs snake) (fst (parse_input_field_type s cs t nb)) (json_of_cvalue lit) = Ok v /\
+            dump v = Some (json_of_cvalue cv).
+Proof. exact validate_roundtrip. Qed.
+Print Assumptions C06_validate_roundtrip.
 
 (* --- witnesses: literal shapes the faithful model gets wrong (finding F9) --- *)
 Definition SD : schema :=
@@ -176,17 +195,28 @@ Definition EV (f : ifdef) : option (res pyval) :=
 Definition CD (f : ifdef) : option cvalue :=
   match i_default f with Some d => coerced_default 9 (SD ++ [("In", DInput [f])])%list (i_type f) d | None => None end.
 
-(* object default containing an enum value: emitted as Sub.B -> AttributeError *)
-Theorem C06_default_refuted_obj_enum :
+(* regression of the former F9a witness: an enum inside an object default is a plain string that
+   model_validate resolves; omitted fields take the class defaults (n = 3) / None *)
+Example C06_default_obj_enum_ok :
   let f := fld (TNamed "Sub") (CObj [("k", CEnum "B")]) in
-  CD f = Some (CObj [("k", CEnum "B"); ("n", CInt 3)]) /\ EV f = Some (Err EAttribute).
+  CD f = Some (CObj [("k", CEnum "B"); ("n", CInt 3)]) /\
+  option_map (fun r => match r with Ok v => dump v | Err _ => None end) (EV f)
+    = Some (Some (JObj [("k", JStr "B"); ("n", JInt 3); ("s", JNull)])).
 Proof. vm_compute. auto. Qed.
 
-(* list default containing an object: a Field(...) call inside the list -> list of FieldInfo, not serialisable *)
-Theorem C06_default_refuted_list_obj :
+(* regression of the former F9b witness: objects inside a list default are model instances *)
+Example C06_default_list_obj_ok :
   let f := fld (TList (TNonNull (TNamed "Sub"))) (CList [CObj [("n", CInt 1)]]) in
-  CD f = Some (CList [CObj [("n", CInt 1)]]) /\ EV f = Some (Ok (VList [VFieldInfo])) /\
-  dump (VList [VFieldInfo]) = None.
+  CD f = Some (CList [CObj [("n", CInt 1)]]) /\
+  option_map (fun r => match r with Ok v => dump v | Err _ => None end) (EV f)
+    = Some (Some (JArr [JObj [("k", JNull); ("n", JInt 1); ("s", JNull)]])).
+Proof. vm_compute. auto. Qed.
+
+(* the shapes covered by the theorem: every field spelled out, enum and nested list inside, list of objects *)
+Example C06_good_object_shapes :
+  good_default SD (CObj [("k", CEnum "class"); ("n", CInt 1); ("s", CList [CStr "x"; CNull])]) (TNamed "Sub") = true /\
+  good_default SD (CList [CObj [("s", CNull); ("k", CEnum "A"); ("n", CInt 2)]; CNull]) (TNonNull (TList (TNamed "Sub"))) = true /\
+  good_default SD (CObj [("k", CEnum "B")]) (TNamed "Sub") = false.
 Proof. vm_compute. auto. Qed.
 
 (* regression of the former F9c witness: a keyword-named enum value refers to the renamed member class_ *)
@@ -211,7 +241,7 @@ Theorem C06_default_full_refuted : ~ C06_default_full.
 Proof.
   intro H.
   destruct (H (SD ++ [("In", DInput [fld (TNamed "ID") (CInt 5)])])%list [] true (fld (TNamed "ID") (CInt 5))
-              (CInt 5) 9 (CStr "5") 9 eq_refl eq_refl) as [b [v [H1 [H2 H3]]]].
+              (CInt 5) 9 (CStr "5") 10 eq_refl eq_refl ltac:(repeat constructor)) as [b [v [H1 [H2 H3]]]].
   vm_compute in H1. inversion H1; subst b. vm_compute in H2. inversion H2; subst v. vm_compute in H3. discriminate.
 Qed.
 Print Assumptions C06_default_full_refuted.
